@@ -23,10 +23,10 @@ def pol(case, rc, timed_out, tail):
 
 def run(tier, seed, t0):
     d = cc.build()
-    cases = vlib.fan_out([os.path.join(d, "sys"), "timed"], NCASES, engine="native real-libc", case_timeout=60, crash_policy=pol, jobs=32, shard=2)
+    cases = vlib.fan_out([os.path.join(d, "sys"), "timed"], NCASES, engine="native real-libc", case_timeout=60, crash_policy=pol, jobs=32, shard=2, confirm_timing=True)
     if tier == "thorough":
         for rep in range(1, 4):
-            more = vlib.fan_out([os.path.join(d, "sys"), "timed"], 2 * 30, engine=f"native real-libc (repeat {rep})", case_timeout=60, crash_policy=pol, jobs=16, shard=2)
+            more = vlib.fan_out([os.path.join(d, "sys"), "timed"], 2 * 30, engine=f"native real-libc (repeat {rep})", case_timeout=60, crash_policy=pol, jobs=16, shard=2, confirm_timing=True)
             for c in more:
                 c.idx += rep * 1000; c.fp = (c.fp or "") + f"#r{rep}"
             cases += more
